@@ -8,7 +8,7 @@
 //! Unit level (hook `xls::verif::c16_sheet_metadata`): all 65 536 (hsState, dt) byte pairs of BoundSheet8, random
 //! and truncated payloads; the harness also checks that the BoundSheet8 / BrtBundleSh payloads in the files are
 //! exactly the bytes of the Lean encoders the theorems are about (`encbs`, `encbundle`).
-use calamine::{Data, ExcelDateTime, ExcelDateTimeType, Ods, Reader, SheetType, SheetVisible, Xls, Xlsb, Xlsx};
+use calamine::{Data, ExcelDateTime, ExcelDateTimeType, HeaderRow, Ods, Reader, SheetType, SheetVisible, Xls, Xlsb, Xlsx};
 use std::io::Cursor;
 use verif_harness::cfbw::{write_cfb, CfbOpts};
 use verif_harness::xlsxw::{self, Ev};
@@ -172,6 +172,12 @@ struct Case {
     /// calcPr, mc:AlternateContent, externalReferences, pivotCaches / office:scripts, font-face-decls, calculation-settings,
     /// database-ranges …) at random positions between the interpreted elements
     inert: bool,
+    /// layout / usage knobs that also apply to `plain` cases (bits):
+    /// 1 = xls: the sheet substreams are stored in another order than the BoundSheet8 records (reversed when plain)
+    /// 2 = xlsb / xlsx: relationship ids with Latin-1 letters, other BMP and astral characters instead of rIdN
+    /// 4 = `with_header_row(..)` is called on the opened reader before anything is read (all formats)
+    /// 8 = ods: every table style name is reused by styles of other families (table-column before, table-cell after)
+    knobs: u8,
     sheets: Vec<LSheet>,
     names: Vec<LName>,
 }
@@ -207,7 +213,7 @@ impl Case {
             .collect();
         let pre: Vec<String> = self.pre.iter().map(|(i, p)| format!("{}:{}", i, hex(p))).collect();
         format!(
-            "{};{};{};{};{};P={};S={};N={};Q={};X={};C={};I={}",
+            "{};{};{};{};{};P={};S={};N={};Q={};X={};C={};I={};K={}",
             self.fmt.tag(),
             self.seed,
             self.date1904 as u8,
@@ -219,12 +225,13 @@ impl Case {
             self.quirk,
             self.ext,
             self.cdata as u8,
-            self.inert as u8
+            self.inert as u8,
+            self.knobs
         )
     }
     fn parse(s: &str) -> Case {
         let p: Vec<&str> = s.split(';').collect();
-        assert!((8..=12).contains(&p.len()), "bad case {s}");
+        assert!((8..=13).contains(&p.len()), "bad case {s}");
         let utf = |h: &str| String::from_utf8(unhex(h)).expect("utf8");
         let list = |x: &str, pre: &str| -> Vec<String> {
             let b = x.strip_prefix(pre).expect("prefix");
@@ -276,6 +283,7 @@ impl Case {
             ext: if p.len() >= 10 { p[9].strip_prefix("X=").expect("X=").parse().unwrap() } else { 0 },
             cdata: p.len() >= 11 && p[10] == "C=1",
             inert: p.len() >= 12 && p[11] == "I=1",
+            knobs: if p.len() >= 13 { p[12].strip_prefix("K=").expect("K=").parse().unwrap() } else { 0 },
             sheets,
             names,
         }
@@ -523,6 +531,22 @@ fn gen_case(fmt: Fmt, rng: &mut Rng) -> Case {
         ext: if fmt == Fmt::Xlsx && rng.chance(1, 2) { *rng.pick(&[1u8, 1, 1, 2, 3, 4, 5, 7]) } else { 0 },
         cdata: fmt == Fmt::Xlsx && rng.chance(1, 3),
         inert: matches!(fmt, Fmt::Xlsx | Fmt::Ods) && rng.chance(1, 2),
+        knobs: {
+            let mut k = 0u8;
+            if fmt == Fmt::Xls && rng.chance(1, 2) {
+                k |= 1;
+            }
+            if matches!(fmt, Fmt::Xlsb | Fmt::Xlsx) && rng.chance(1, 2) {
+                k |= 2;
+            }
+            if rng.chance(1, 3) {
+                k |= 4;
+            }
+            if fmt == Fmt::Ods && rng.chance(1, 2) {
+                k |= 8;
+            }
+            k
+        },
         sheets,
         names,
     }
@@ -557,6 +581,17 @@ fn date_kinds(fmt: Fmt) -> usize {
         Fmt::Xlsx => 3,
         Fmt::Ods => 0,
     }
+}
+
+/// the relationship id of sheet `i` (knob 2: NCNames with Latin-1 letters — one UTF-16 unit, two UTF-8 bytes —, other
+/// BMP characters and astral characters; never `rId<k>`, which the writers use for styles / shared strings)
+fn rel_id(c: &Case, i: usize, rng: &mut Rng) -> String {
+    if c.knobs & 2 == 0 {
+        return format!("rId{}", i + 1);
+    }
+    let forms = ["Blatt_Übersicht", "idRésumé", "ÿ", "シート", "Лист_é", "id😀", "sheetÜ𝒳"];
+    let f = if c.plain { forms[i % 2] } else { *rng.pick(&forms) };
+    format!("{}{}", f, i + 1)
 }
 
 fn units_hex(u: &[u16]) -> String {
@@ -681,6 +716,13 @@ fn build_xls(c: &Case) -> Built {
         }
         book.names.push(xlsw::XlsName { name: n.name.clone(), rgce, name_wide: if c.plain { Some(false) } else { None }, itab: 0 });
     }
+    if c.knobs & 1 != 0 && c.sheets.len() >= 2 {
+        let mut order: Vec<usize> = (0..c.sheets.len()).rev().collect();
+        if !c.plain {
+            rng.shuffle(&mut order);
+        }
+        book.substream_order = Some(order);
+    }
     let wb = book.workbook_stream(&mut rng);
     let mut opts = if c.plain { CfbOpts::default() } else { CfbOpts::random(&mut rng) };
     if wb.len() >= 4096 || wb.is_empty() {
@@ -803,16 +845,20 @@ fn build_xlsb(c: &Case) -> Built {
         }
         book.names.push(xlsbw::DefinedName { name: n.name.clone(), rgce, itab: 0xFFFF_FFFF });
     }
+    let rel_ids: Vec<String> = (0..c.sheets.len()).map(|i| rel_id(c, i, &mut rng)).collect();
+    if c.knobs & 2 != 0 {
+        book.rel_ids = Some(rel_ids.clone());
+    }
     let parts = book.parts();
     let wbpart = parts.iter().find(|(n, _)| n == "xl/workbook.bin").unwrap().1.clone();
     let bytes = xlsbw::zip_parts(&parts, book.deflate);
-    let rels: Vec<String> = (0..c.sheets.len()).map(|i| format!("{}={}", hex(format!("rId{}", i + 1).as_bytes()), hex(book.sheet_path(i).as_bytes()))).collect();
+    let rels: Vec<String> = (0..c.sheets.len()).map(|i| format!("{}={}", hex(rel_ids[i].as_bytes()), hex(book.sheet_path(i).as_bytes()))).collect();
     let ties = c
         .sheets
         .iter()
         .enumerate()
         .map(|(i, s)| {
-            let rel: Vec<u16> = format!("rId{}", i + 1).encode_utf16().collect();
+            let rel: Vec<u16> = rel_ids[i].encode_utf16().collect();
             let nm: Vec<u16> = s.name.encode_utf16().collect();
             let mut p = (s.vis as u32).to_le_bytes().to_vec();
             p.extend_from_slice(&(i as u32 + 1).to_le_bytes());
@@ -854,6 +900,9 @@ fn build_xlsx(c: &Case) -> Built {
         }
     }
     book.split_defined_names = !c.plain && rng.chance(1, 3);
+    if c.knobs & 2 != 0 {
+        book.rel_ids = Some((0..c.sheets.len()).map(|i| rel_id(c, i, &mut rng)).collect());
+    }
     book.cdata_defined_names = c.cdata;
     if c.inert {
         let kv = |k: &str, v: &str| (k.to_string(), v.to_string());
@@ -1019,7 +1068,15 @@ fn build_ods(c: &Case) -> Built {
         let dup: Vec<(String, Option<bool>)> = styles.iter().map(|(n, d)| (n.clone(), Some(*d == Some(false)))).collect();
         styles.splice(0..0, dup);
     }
+    let homonyms = c.knobs & 8 != 0;
     for (n, d) in &styles {
+        if homonyms && (c.plain || rng.chance(1, 2)) {
+            // style names are unique per family only: a column style may carry the name of a table style
+            evs.push(ev_start("style:style", vec![kv("style:name", n), kv("style:family", "table-column")]));
+            evs.push(ev_start("style:table-column-properties", vec![kv("style:column-width", "2.5cm")]));
+            evs.push(Ev::End("style:table-column-properties".into()));
+            evs.push(Ev::End("style:style".into()));
+        }
         evs.push(ev_start("style:style", vec![kv("style:name", n), kv("style:family", "table")]));
         let mut a = vec![];
         if let Some(d) = d {
@@ -1031,6 +1088,16 @@ fn build_ods(c: &Case) -> Built {
         evs.push(ev_start("style:table-properties", a));
         evs.push(Ev::End("style:table-properties".into()));
         evs.push(Ev::End("style:style".into()));
+        if homonyms && (c.plain || rng.chance(2, 3)) {
+            // … and so may a cell or row style that comes later
+            let fam = if c.plain { "table-cell" } else { *rng.pick(&["table-cell", "table-row", "table-column"]) };
+            evs.push(ev_start("style:style", vec![kv("style:name", n), kv("style:family", fam)]));
+            if fam == "table-cell" {
+                evs.push(ev_start("style:text-properties", vec![kv("fo:font-weight", "bold")]));
+                evs.push(Ev::End("style:text-properties".into()));
+            }
+            evs.push(Ev::End("style:style".into()));
+        }
     }
     evs.push(Ev::End("office:automatic-styles".into()));
     evs.push(ev_start("office:body", vec![]));
@@ -1160,10 +1227,14 @@ fn model_class(reply: &str) -> String {
     reply.to_string()
 }
 
-fn dump_reader<R: Reader<Cursor<Vec<u8>>>>(wb: &mut R, with_dates: bool) -> String
+fn dump_reader<R: Reader<Cursor<Vec<u8>>>>(wb: &mut R, with_dates: bool, reconfigure: bool) -> String
 where
     R::Error: std::fmt::Debug,
 {
+    if reconfigure {
+        // an option change on the opened reader must not disturb what the workbook declared (date system, sheets, names)
+        wb.with_header_row(HeaderRow::FirstNonEmptyRow);
+    }
     let names = wb.sheet_names();
     let meta = wb.sheets_metadata().to_vec();
     if names != meta.iter().map(|s| s.name.clone()).collect::<Vec<_>>() {
@@ -1204,23 +1275,23 @@ where
     format!("ok d={} S={} N={}", d, sh.join(","), nm.join(","))
 }
 
-fn run_impl(fmt: Fmt, bytes: &[u8]) -> String {
+fn run_impl(fmt: Fmt, bytes: &[u8], reconfigure: bool) -> String {
     let b = bytes.to_vec();
     let r = guarded(move || match fmt {
         Fmt::Xls => match Xls::new(Cursor::new(b)) {
-            Ok(mut wb) => dump_reader(&mut wb, true),
+            Ok(mut wb) => dump_reader(&mut wb, true, reconfigure),
             Err(e) => format!("err:{}", err_class(&format!("{e:?}"))),
         },
         Fmt::Xlsb => match Xlsb::new(Cursor::new(b)) {
-            Ok(mut wb) => dump_reader(&mut wb, true),
+            Ok(mut wb) => dump_reader(&mut wb, true, reconfigure),
             Err(e) => format!("err:{}", err_class(&format!("{e:?}"))),
         },
         Fmt::Xlsx => match Xlsx::new(Cursor::new(b)) {
-            Ok(mut wb) => dump_reader(&mut wb, true),
+            Ok(mut wb) => dump_reader(&mut wb, true, reconfigure),
             Err(e) => format!("err:{}", err_class(&format!("{e:?}"))),
         },
         Fmt::Ods => match Ods::new(Cursor::new(b)) {
-            Ok(mut wb) => dump_reader(&mut wb, false),
+            Ok(mut wb) => dump_reader(&mut wb, false, reconfigure),
             Err(e) => format!("err:{}", err_class(&format!("{e:?}"))),
         },
     });
@@ -1307,6 +1378,9 @@ fn features(c: &Case, part: &str) -> String {
     if c.inert {
         f.push("inert".to_string());
     }
+    if c.knobs != 0 {
+        f.push(format!("knobs={}", c.knobs));
+    }
     if f.is_empty() {
         String::new()
     } else {
@@ -1316,7 +1390,7 @@ fn features(c: &Case, part: &str) -> String {
 
 fn eval(c: &Case, drv: &mut Driver) -> Outcome {
     let built = build(c);
-    let impl_out = run_impl(c.fmt, &built.bytes);
+    let impl_out = run_impl(c.fmt, &built.bytes, c.knobs & 4 != 0);
     let model_raw = drv.ask(&built.request);
     let model_out = canon_model(c, &model_raw);
     let expect = c.expect();
@@ -1448,6 +1522,13 @@ fn shrink(c: &Case, kind: &str, sig: &str, drv: &mut Driver) -> Case {
             d.inert = false;
             cands.push(d);
         }
+        for bit in [1u8, 2, 4, 8] {
+            if cur.knobs & bit != 0 {
+                let mut d = cur.clone();
+                d.knobs &= !bit;
+                cands.push(d);
+            }
+        }
         for bit in [1u8, 2, 4] {
             if cur.ext & bit != 0 {
                 let mut d = cur.clone();
@@ -1511,6 +1592,11 @@ fn run_case(c: &Case, drv: &mut Driver, rep: &mut Report, from_corpus: bool) {
     }
     if c.ext != 0 {
         rep.count(&format!("xlsx:extLst={}", c.ext));
+    }
+    for (bit, what) in [(1u8, "substreams-out-of-tab-order"), (2, "non-ascii-relationship-ids"), (4, "with_header_row-before-reading"), (8, "style-names-reused-across-families")] {
+        if c.knobs & bit != 0 {
+            rep.count(&format!("{}:{}", c.fmt.tag(), what));
+        }
     }
     if c.quirk != 0 {
         rep.count(&format!("{}:out-of-spec-quirk-{} (impl vs model only)", c.fmt.tag(), c.quirk));
@@ -1658,7 +1744,7 @@ fn unit_boundsheet(_drv: &mut Driver, rep: &mut Report, _rng: &mut Rng, _n: u64)
 
 fn corpus() -> Vec<Case> {
     let sh = |n: &str, vis: u8, kind: Kind| LSheet { name: n.to_string(), vis, kind };
-    let base = |fmt: Fmt| Case { fmt, seed: 1, date1904: false, prefix: String::new(), plain: true, pre: vec![], quirk: 0, ext: 0, cdata: false, inert: false, sheets: vec![sh("S1", 0, Kind::Work)], names: vec![] };
+    let base = |fmt: Fmt| Case { fmt, seed: 1, date1904: false, prefix: String::new(), plain: true, pre: vec![], quirk: 0, ext: 0, cdata: false, inert: false, knobs: 0, sheets: vec![sh("S1", 0, Kind::Work)], names: vec![] };
     let mut v = vec![];
     // D22: <x:workbookPr date1904="1"/> was ignored
     let mut c = base(Fmt::Xlsx);
@@ -1700,6 +1786,30 @@ fn corpus() -> Vec<Case> {
         LName { name: "N2".into(), target: Target::AreaRel(0, 1, 2, 3, 4, 1, 2) },
     ];
     v.push(c);
+    // second-round seeded changes (C16-m5 … m8): plain cases with the knob that exposes each
+    {
+        let mut c = base(Fmt::Xls);
+        c.knobs = 1;
+        c.sheets = vec![sh("Alpha", 0, Kind::Work), sh("Beta", 0, Kind::Work), sh("Gamma", 0, Kind::Work)];
+        c.names = vec![LName { name: "NameAlpha".into(), target: Target::Ref(0, 0, 0) }, LName { name: "NameGamma".into(), target: Target::Area(2, 0, 0, 1, 1) }];
+        v.push(c);
+        let mut c = base(Fmt::Ods);
+        c.knobs = 8;
+        c.sheets = vec![sh("Shown", 0, Kind::Work), sh("Tucked", 1, Kind::Work)];
+        v.push(c);
+        for fmt in [Fmt::Xls, Fmt::Xlsb, Fmt::Xlsx, Fmt::Ods] {
+            let mut c = base(fmt);
+            c.knobs = 4;
+            c.date1904 = true;
+            v.push(c);
+        }
+        for fmt in [Fmt::Xlsb, Fmt::Xlsx] {
+            let mut c = base(fmt);
+            c.knobs = 2;
+            c.sheets = vec![sh("S1", 0, Kind::Work), sh("S2", 1, Kind::Work)];
+            v.push(c);
+        }
+    }
     // D35: a 16-bit Lbl name of two characters was read as one
     let mut c = base(Fmt::Xls);
     c.names = vec![LName { name: "Жы".into(), target: Target::Ref(0, 0, 0) }];
@@ -1749,7 +1859,7 @@ fn main() {
         "C16",
         "one case = one logical workbook (0-12 sheets with unique names of 1-31 UTF-16 units drawn from ASCII, XML specials, Latin-1, BMP and non-BMP characters, \
          excluding the characters Excel forbids in sheet names and NUL, sometimes with a leading U+FEFF; every visibility x kind the format expresses; 0-10 defined names: text for \
-         xlsx/ods, PtgRef3d/PtgArea3d (absolute, and with relative row/column parts rendered without `$`)/PtgRefErr3d for xls/xlsb; both date systems, in every sheet one date-styled cell of every numeric record kind and encoding (xls: NUMBER, RK x4, MULRK, FORMULA; xlsb: BrtCellReal, BrtCellRk x4, BrtFmlaNum; xlsx: number, whole number, formula with cached number), each checked for the flag; xlsx: in half of the cases an extLst with foreign-namespace elements whose local names are workbookPr / definedName / sheet) in half of the xlsx / ods cases inert elements, comments and processing instructions at random positions between the interpreted elements) written under a random layout; non-trivial = at \
+         xlsx/ods, PtgRef3d/PtgArea3d (absolute, and with relative row/column parts rendered without `$`)/PtgRefErr3d for xls/xlsb; both date systems, in every sheet one date-styled cell of every numeric record kind and encoding (xls: NUMBER, RK x4, MULRK, FORMULA; xlsb: BrtCellReal, BrtCellRk x4, BrtFmlaNum; xlsx: number, whole number, formula with cached number), each checked for the flag; xlsx: in half of the cases an extLst with foreign-namespace elements whose local names are workbookPr / definedName / sheet) in half of the xlsx / ods cases inert elements, comments and processing instructions at random positions between the interpreted elements) xls: sheet substreams stored out of tab order; xlsb/xlsx: relationship ids with Latin-1, BMP and astral characters; ods: table style names reused by styles of other families; in a third of the cases with_header_row is called on the opened reader before anything is read) written under a random layout; non-trivial = at \
          least one sheet and (several sheets, a defined name, or a non-default visibility/kind); \
          about 4% of the xls / ods cases carry an out-of-specification detail (DATEMODE = 2; a style name defined twice) on which only implementation and model are compared; unit cases = BoundSheet8 payloads (all 65536 hsState x dt byte pairs, random and truncated strings)",
     );
